@@ -372,4 +372,204 @@ theorem drain_open_encode (c : Cfg) (o : RecOpt) (h8 : 8 ∣ c.B) (hB : 0 < c.B)
     (by simpa using hr)
   simpa using this
 
+/-! ### the term frequencies the lazy cursor shows -/
+
+/-- the frequencies `load_block` decodes for the current block when it reads them (`none`: the
+frequency buffer is left as it was — the empty block after the tail) -/
+def blockTfs (c : Cfg) (s : SkipReader) (data : List Nat) : Option (List Nat) :=
+  match s.blockInfo with
+  | .bitPacked db strict tb _ =>
+    some (((c.P.unpack tb ((data.drop (s.byteOffset.getD 0)).drop (db * c.B / 8))).map
+      (fun x => if strict then x + 1 else x)).take c.B)
+  | .vint n =>
+    match VInt.decList c.S n (if n = 0 then [] else data.drop (s.byteOffset.getD 0)) with
+    | none => none
+    | some (_, rest) =>
+      if 0 < rest.length then
+        match VInt.decList c.S n rest with
+        | none => none
+        | some (tfs, _) => some ((padTo c.B c.T tfs).take n)
+      else none
+
+theorem loadBlock_freqs (c : Cfg) (p : BlockPostings) (h : p.loaded = false) (hf : p.freqOpt = .readFreq)
+    (t : List Nat) (ht : blockTfs c p.skip p.data = some t) : (p.loadBlock c).freqs = t := by
+  simp only [BlockPostings.loadBlock, blockTfs, BlockPostings.freqs, h, hf, Bool.false_eq_true, if_false,
+    true_and] at ht ⊢
+  repeat' split at ht
+  all_goals simp_all
+
+def skipDrainTf (c : Cfg) (data : List Nat) : Nat → SkipReader → Option (List Nat)
+  | 0, _ => some []
+  | fuel + 1, s =>
+    if (blockDocs c s data).isEmpty then some []
+    else
+      match blockTfs c s data, skipDrainTf c data fuel (s.advance c) with
+      | some a, some b => some (a ++ b)
+      | _, _ => none
+
+theorem drain_tfs_eq_skipDrainTf (c : Cfg) (fuel : Nat) :
+    ∀ (q : BlockPostings) (t : List Nat), q.loaded = false → q.freqOpt = .readFreq →
+      skipDrainTf c q.data fuel q.skip = some t →
+      (BlockPostings.drain c fuel (q.loadBlock c)).2 = t := by
+  induction fuel with
+  | zero => intro q t _ _ ht; simp [skipDrainTf] at ht; simp [BlockPostings.drain, ← ht]
+  | succ n ih =>
+    intro q t hq hf ht
+    unfold skipDrainTf at ht
+    unfold BlockPostings.drain
+    rw [loadBlock_docs c q hq]
+    split at ht
+    · rename_i hemp
+      simp only [hemp, if_true]
+      simpa using ht.symm
+    · rename_i hne
+      simp only [hne, Bool.false_eq_true, if_false]
+      split at ht
+      · rename_i a b ha hb
+        simp only [Option.some.injEq] at ht
+        rw [loadBlock_freqs c q hq hf a ha]
+        unfold BlockPostings.advance
+        have := ih ({ q.loadBlock c with skip := (q.loadBlock c).skip.advance c, loaded := false } : BlockPostings) b
+          rfl (by simp only [loadBlock_freqOpt]; exact hf)
+          (by simp only [loadBlock_skip, loadBlock_data]; exact hb)
+        rw [this, ht]
+      · simp at ht
+
+theorem blockTfs_full (c : Cfg) (o : RecOpt) (ho : hasFreq o = true) (hP : GoodPacker c.B c.P)
+    (k prev : Nat) (docs tfs pre : List Nat) (S : SkipReader) (hv : ValidList docs tfs)
+    (hlen : c.B ≤ docs.length) (hr : ReadyAt c o (k + 1) prev docs tfs pre.length S) :
+    blockTfs c S (pre ++ (encBlocks c o (k + 1) prev docs tfs).2) = some (tfs.take c.B) := by
+  obtain ⟨h1, h2, h3, h4, h5, h6, h7⟩ := hr
+  have htake : (docs.take c.B).length = c.B := by simp; omega
+  have httake : (tfs.take c.B).length = c.B := by simp [hv.len]; omega
+  have hds_len : (strictDeltas (offsetOpt prev) (docs.take c.B)).length = c.B := by
+    rw [strictDeltas_length, htake]
+  have hpl := hP.pack_length (numBits (strictDeltas (offsetOpt prev) (docs.take c.B))) _ hds_len
+  unfold blockTfs
+  simp only [h5, h3, Option.getD_some, if_true, encBlocks, List.drop_left', List.append_assoc, ho]
+  rw [← hpl, List.drop_left' rfl,
+    hP.unpack_pack _ _ _ (by rw [List.length_map]; exact httake) (lt_two_pow_numBits _),
+    map_pred_succ _ (fun t ht => hv.tfpos t (List.mem_of_mem_take ht)), List.take_take, Nat.min_self]
+
+theorem blockTfs_tail (c : Cfg) (o : RecOpt) (ho : hasFreq o = true) (hS : 2 ≤ c.S) (prev : Nat)
+    (docs tfs pre : List Nat) (S : SkipReader) (hv : ValidList docs tfs) (hne : docs ≠ [])
+    (hr : ReadyAt c o 0 prev docs tfs pre.length S) :
+    blockTfs c S (pre ++ (encBlocks c o 0 prev docs tfs).2) = some tfs := by
+  obtain ⟨h1, h2, h3, h4, h5⟩ := hr
+  have h0 : docs.length ≠ 0 := fun h => hne (List.length_eq_zero_iff.mp h)
+  have htne : tfs ≠ [] := fun h => h0 (by rw [← hv.len, h]; rfl)
+  have e1 := VInt.decList_encList c.S hS (deltas prev docs) (VInt.encList c.S tfs)
+  rw [deltas_length] at e1
+  have e2 := VInt.decList_encList c.S hS tfs []
+  rw [hv.len, List.append_nil] at e2
+  have hpos : 0 < (VInt.encList c.S tfs).length := by
+    cases tfs with
+    | nil => exact absurd rfl htne
+    | cons a r =>
+      have := VInt.enc_length_pos c.S a
+      simp [VInt.encList]; omega
+  unfold blockTfs
+  simp only [h5, h3, Option.getD_some, encBlocks, vintTail, ho, if_true, List.drop_left', h0, if_false,
+    e1, hpos, e2]
+  rw [← hv.len]
+  simp [padTo]
+
+theorem skipDrainTf_enc (c : Cfg) (o : RecOpt) (ho : hasFreq o = true) (h8 : 8 ∣ c.B) (hB : 0 < c.B)
+    (hS : 2 ≤ c.S) (hP : GoodPacker c.B c.P) (k : Nat) :
+    ∀ (prev : Nat) (docs tfs pre : List Nat) (S : SkipReader), k = docs.length / c.B →
+      ValidList docs tfs → (prev = 0 ∨ ∀ d ∈ docs, prev < d) →
+      ReadyAt c o k prev docs tfs pre.length S →
+      skipDrainTf c (pre ++ (encBlocks c o k prev docs tfs).2) (k + 2) S = some tfs := by
+  induction k with
+  | zero =>
+    intro prev docs tfs pre S hk hv hprev hr
+    have hlt : docs.length < c.B := by
+      rcases Nat.lt_or_ge docs.length c.B with h | h
+      · exact h
+      · have : 1 ≤ docs.length / c.B := (Nat.one_le_div_iff hB).mpr h
+        omega
+    have ht := blockDocs_tail c o hB hS prev docs tfs pre S hv hprev hlt hr _ rfl
+    by_cases hd : docs = []
+    · have htf : tfs = [] := List.length_eq_zero_iff.mp (by rw [hv.len, hd]; rfl)
+      subst hd
+      subst htf
+      have h1 := ht.1
+      simp [skipDrainTf, h1]
+    · have htfs := blockTfs_tail c o ho hS prev docs tfs pre S hv hd hr
+      simp [skipDrainTf, ht.1, ht.2, hd, htfs]
+  | succ k ih =>
+    intro prev docs tfs pre S hk hv hprev hr
+    have hlen : c.B ≤ docs.length := by
+      rcases Nat.lt_or_ge docs.length c.B with h | h
+      · rw [Nat.div_eq_of_lt h] at hk; omega
+      · exact h
+    have hfull := blockDocs_full c o hP k prev docs tfs pre S hv hprev hlen hr
+    have htfull := blockTfs_full c o ho hP k prev docs tfs pre S hv hlen hr
+    have hne : docs.take c.B ≠ [] := by
+      intro h
+      have : (docs.take c.B).length = c.B := by simp; omega
+      rw [h] at this; simp at this; omega
+    have hadv := advance_ready c o h8 hB k prev docs tfs pre.length S hv hk hr
+    have hk' : k = (docs.drop c.B).length / c.B := by
+      simp only [List.length_drop]
+      have e : docs.length = (docs.length - c.B) + c.B := by omega
+      rw [e, Nat.add_div_right _ hB] at hk
+      omega
+    have hlast_mem := getLastD_mem (docs.take c.B) hne
+    have hprev' : (docs.take c.B).getLastD 0 = 0 ∨ ∀ d ∈ docs.drop c.B, (docs.take c.B).getLastD 0 < d :=
+      Or.inr (fun d hd => take_lt_drop docs hv.sorted c.B _ hlast_mem d hd)
+    have htake : (docs.take c.B).length = c.B := by simp; omega
+    have httake : (tfs.take c.B).length = c.B := by simp [hv.len]; omega
+    have hds_len : (strictDeltas (offsetOpt prev) (docs.take c.B)).length = c.B := by
+      rw [strictDeltas_length, htake]
+    have hpl := hP.pack_length (numBits (strictDeltas (offsetOpt prev) (docs.take c.B))) _ hds_len
+    have hpl2 := hP.pack_length (numBits ((tfs.take c.B).map (· - 1))) ((tfs.take c.B).map (· - 1))
+      (by rw [List.length_map]; exact httake)
+    let blk := c.P.pack (numBits (strictDeltas (offsetOpt prev) (docs.take c.B))) (strictDeltas (offsetOpt prev) (docs.take c.B)) ++
+      (if hasFreq o then c.P.pack (numBits ((tfs.take c.B).map (· - 1))) ((tfs.take c.B).map (· - 1)) else [])
+    have hblk_len : blk.length = blockBytesLen c o prev docs tfs := by
+      simp only [blk, blockBytesLen, List.length_append, hpl]
+      cases hasFreq o
+      · simp
+      · simp only [if_true]; rw [hpl2]
+    have hdata : pre ++ (encBlocks c o (k + 1) prev docs tfs).2 =
+        (pre ++ blk) ++ (encBlocks c o k ((docs.take c.B).getLastD 0) (docs.drop c.B) (tfs.drop c.B)).2 := by
+      simp only [encBlocks, blk, List.append_assoc]
+    have hih := ih ((docs.take c.B).getLastD 0) (docs.drop c.B) (tfs.drop c.B) (pre ++ blk) (S.advance c)
+      hk' (hv.drop c.B) hprev' (by rw [List.length_append, hblk_len]; exact hadv)
+    rw [skipDrainTf, hfull, htfull]
+    simp only [List.isEmpty_iff, hne, if_false]
+    rw [hdata, hih]
+    simp [List.take_append_drop]
+
+/-- **lazy cursor ≡ the list, frequencies included** -/
+theorem drain_open_encode_tfs (c : Cfg) (o : RecOpt) (ho : hasFreq o = true) (h8 : 8 ∣ c.B) (hB : 0 < c.B)
+    (hS : 2 ≤ c.S) (hP : GoodPacker c.B c.P) (docs tfs : List Nat) (hv : ValidList docs tfs) :
+    (BlockPostings.drain c (docs.length / c.B + 2)
+      (BlockPostings.open c o o docs.length (encodeTerm c o docs tfs))).2 = tfs := by
+  unfold BlockPostings.open
+  apply drain_tfs_eq_skipDrainTf c _ _ tfs rfl
+  · simp only [splitSkips_encodeTerm c o hS, effectiveOpt_encodeTerm]
+    cases o <;> simp [hasFreq] at ho <;> rfl
+  · simp only [splitSkips_encodeTerm c o hS, effectiveOpt_encodeTerm]
+    have hr := new_ready c o hB docs tfs hv
+    have := skipDrainTf_enc c o ho h8 hB hS hP (docs.length / c.B) 0 docs tfs [] _ rfl hv (Or.inl rfl)
+      (by simpa using hr)
+    simpa using this
+
+/-- the recycled cursor shows the new term's frequencies as well -/
+theorem drain_reset_encode_tfs (c : Cfg) (o : RecOpt) (ho : hasFreq o = true) (h8 : 8 ∣ c.B) (hB : 0 < c.B)
+    (hS : 2 ≤ c.S) (hP : GoodPacker c.B c.P) (docs tfs : List Nat) (hv : ValidList docs tfs)
+    (p : BlockPostings) (hskip : p.skip.skipInfo = o) (hfreq : p.freqOpt = .readFreq) :
+    (BlockPostings.drain c (docs.length / c.B + 2)
+      (p.reset c docs.length (encodeTerm c o docs tfs))).2 = tfs := by
+  simp only [BlockPostings.reset]
+  refine drain_tfs_eq_skipDrainTf c _ _ tfs rfl ?_ ?_
+  · exact hfreq
+  simp only [splitSkips_encodeTerm c o hS, SkipReader.reset_eq_new, hskip]
+  have hr := new_ready c o hB docs tfs hv
+  have := skipDrainTf_enc c o ho h8 hB hS hP (docs.length / c.B) 0 docs tfs [] _ rfl hv (Or.inl rfl)
+    (by simpa using hr)
+  simpa using this
+
 end TantivyModel.Postings
